@@ -58,6 +58,7 @@ structure Intro where
   convertOk : Bool := true                  -- convert_to_typing_types(type_) returns
   asClass : Option ClsId := none            -- the class `isinstance(obj, type_)` tests against; none: TypeError
   isProtocolMeta : Bool := false            -- type(type_) == _ProtocolMeta
+  isNTClass : Bool := false                 -- isinstance(type_, type) and issubclass(type_, tuple) and hasattr(type_, '_fields')
   args : List Ann := []                     -- get_type_arguments(type_), without a trailing Ellipsis
   ellipsis : Bool := false                  -- Ellipsis in get_type_arguments(type_)
   lits : List Lit := []                     -- the arguments of Literal[…]
@@ -85,8 +86,8 @@ def unionIntroName : USpell → Nat → Option String
 def intro (env : Env) (pc : Bool) : Ann → Intro
   | .none => { isNone := true, name := some "oneType", originName := some "oneType", module := none, qualnameIsNewType := none }
   | .strAnn n => { strName := some n, name := some "tr", originName := some "tr", module := none, qualnameIsNewType := none }
-  | .cls c => { asClass := some c }
-  | .clsF c names anns => { asClass := some c, annotations := some names, fieldAnns := anns }
+  | .cls c => { asClass := some c, isNTClass := env.isNT c }
+  | .clsF c names anns => { asClass := some c, annotations := some names, fieldAnns := anns, isNTClass := env.isNT c }
   | .any => { name := some "Any", originName := some "Any", module := some true, annotations := some [] }   -- typing.Any is a class
   | .union sp ms =>
       match sp with
@@ -141,7 +142,7 @@ def intro (env : Env) (pc : Bool) : Ann → Intro
 
 /-- the class a forward reference resolves to, seen as an annotation object (a class of the context: never one of the builtin
     containers, a typing object or a NewType) -/
-def introResolved (env : Env) (c : ClsId) : Intro := { asClass := some c, annotations := env.fieldNames c }
+def introResolved (env : Env) (c : ClsId) : Intro := { asClass := some c, annotations := env.fieldNames c, isNTClass := env.isNT c }
 
 /-! ### results of the recursive calls available to one node -/
 def oob : Res := ⟨.raisedOther, []⟩
@@ -153,8 +154,9 @@ structure Kids where
   each : Val → List Res := fun _ => []
   /-- `REC(x, t) for x, t in zip(xs, args)` -/
   zip : List Val → List Res := fun _ => []
-  /-- `REC(obj._asdict()[k], t) for k, t in field_types.items()`, given the names and values of `obj` -/
-  fields : List NameId → List Val → List Res := fun _ _ => []
+  /-- `REC(obj._asdict()[k], t) for k, t in field_types.items() <if k in as_dict>`, given whether the filter is there and the names
+      and values of `obj` -/
+  fields : Bool → List NameId → List Val → List Res := fun _ _ _ => []
   /-- `REC(x, convert_to_typing_types(type_))` -/
   converted : Val → Res := fun _ => oob
   /-- `REC(x, <the class the forward reference names>)` -/
@@ -239,6 +241,8 @@ def evalG (X : Ext) (F : Frame) (st : St) : Guard → Option Bool
   | .typeInBuiltins names => some (match F.I.builtin with | some b => names.contains b | Option.none => false)
   | .isGenericAlias => some F.I.isGenericAlias
   | .typeIsProtocolMeta => some F.I.isProtocolMeta
+  | .typeIsNamedTupleClass => some F.I.isNTClass
+  | .objIsinstanceType => F.I.asClass.map fun c => F.env.sub (F.v.typeOf F.env) c
   | .typeIsNone => some F.I.isNone
   | .typeIsStr => some F.I.strName.isSome
   | .resolvedIsClass => some ((F.I.strName.bind F.env.ctx).isSome)
@@ -357,8 +361,11 @@ def doAct (X : Ext) (F : Frame) (id : Nat) (a : Action) (st : St) : Step :=
       | Option.none => ret .raisedOther                    -- NameError from eval
   | .returnIsinstanceSupertype => ret (.ok (F.env.sub (F.v.typeOf F.env) F.I.supertype))
   | .bindFieldTypes attr => .next { st with fieldSrc := some attr }
-  | .returnQuantFields q lazy =>
-      if F.v.hasAsdict then sub (quant q lazy (F.K.fields F.v.asdictKeys (F.v.tupleItems.getD []))) else ret .raisedOther
+  | .bindFieldTypesFirstOf _ =>                           -- `_field_types` is gone since Python 3.9: the `or` falls to `__annotations__` / {}
+      if F.I.hasFieldTypes then ret .raisedOther else .next { st with fieldSrc := some "__annotations__" }
+  | .bindAsDict => if F.v.hasAsdict then .next st else ret .raisedOther      -- AttributeError
+  | .returnQuantFields q lazy only =>
+      if F.v.hasAsdict then sub (quant q lazy (F.K.fields only F.v.asdictKeys (F.v.tupleItems.getD []))) else ret .raisedOther
   | .returnRecurseConverted => if F.I.convertOk then sub (F.K.converted F.v) else ret .raisedOther
   | .returnIsinstanceType =>
       match F.I.asClass with
@@ -450,7 +457,8 @@ def node (env : Env) (pc : Bool) (a : Ann) (v : Val) (K : Kids) : Res :=
   let res : ClsId → Val → Res := fun c x =>
     runFn (ext callDepth) "_is_instance"
       { env := env, I := introResolved env c, v := x,
-        K := { fields := fun _ _ => ((env.fieldNames c).getD []).map fun _ => oob } }   -- field annotations of that class: not modelled
+        K := { fields := fun only vn _ =>                  -- field annotations of that class: not modelled
+                 (((env.fieldNames c).getD []).filter fun n => !only || vn.contains n).map fun _ => oob } }
   runFn (ext callDepth) "_is_instance" { env := env, I := intro env pc a, v := v, K := { K with converted := conv, resolved := res } }
 
 mutual
@@ -460,7 +468,7 @@ def interpIsInstance (env : Env) (orc : Nat → Val → Raw) : Bool → Ann → 
   | pc, .none, v => node env pc .none v {}
   | pc, .cls c, v => node env pc (.cls c) v {}
   | pc, .clsF c names anns, v =>
-      node env pc (.clsF c names anns) v { fields := fun vn xs => interpFields env orc false names anns vn xs }
+      node env pc (.clsF c names anns) v { fields := fun only vn xs => interpFields env orc only false names anns vn xs }
   | pc, .any, v => node env pc .any v {}
   | pc, .union sp ms, v => node env pc (.union sp ms) v { each := fun x => interpEach env orc false ms x }
   | pc, .literal ls, v => node env pc (.literal ls) v {}
@@ -486,11 +494,12 @@ def interpEach (env : Env) (orc : Nat → Val → Raw) : Bool → List Ann → V
 def interpZip (env : Env) (orc : Nat → Val → Raw) : Bool → List Ann → List Val → List Res
   | pc, a :: as, x :: xs => interpIsInstance env orc pc a x :: interpZip env orc pc as xs
   | _, _, _ => []
-def interpFields (env : Env) (orc : Nat → Val → Raw) : Bool → List NameId → List Ann → List NameId → List Val → List Res
+def interpFields (env : Env) (orc : Nat → Val → Raw) (only : Bool) : Bool → List NameId → List Ann → List NameId → List Val → List Res
   | pc, n :: ns, a :: as, vnames, xs =>
-      (match lookupField vnames xs n with
-       | Option.none => oob                                 -- KeyError
-       | some x => interpIsInstance env orc pc a x) :: interpFields env orc pc ns as vnames xs
+      match lookupField vnames xs n with
+      | Option.none => if only then interpFields env orc only pc ns as vnames xs        -- `if k in as_dict`
+                       else oob :: interpFields env orc only pc ns as vnames xs        -- KeyError
+      | some x => interpIsInstance env orc pc a x :: interpFields env orc only pc ns as vnames xs
   | _, _, _, _, _ => []
 end
 
